@@ -1,4 +1,5 @@
 import Qx.Model.C07Iq
+import Qx.Props.C13
 /-! Helper lemmas for C07 (property theorems live in Qx/Props/C07.lean). -/
 namespace Qx.C07
 
@@ -1160,3 +1161,85 @@ theorem count_of_perm_range {l : List Nat} {n q : Nat} (h : l.Perm (List.range n
   omega
 
 end Qx.C07
+
+/-! ### `chain` on the task model of C13
+
+`chain(source, context, convert)` creates a promise and attaches one continuation (empty re-entrant
+body) to `source`; the new promise is finished each time that continuation runs.  The continuation
+gets the id `s.nextId` of the source's state `s` at the moment of the call. -/
+namespace Qx.C07Chain
+open Qx.C13
+
+/-- how many times the promise returned by `chain` is finished, given the events of the source task
+from the `then` call on; `k` = id of the continuation `chain` attached -/
+def finishes (evs : List Ev) (k : Nat) : Nat := (ranIds evs).count k
+
+/-- operations on the source that neither finish it, nor attach another continuation, nor drop a
+handle, nor destroy the chain's context -/
+def Quiet (ctx : Nat) (op : Op) : Prop := op = .copyHandle ∨ ∃ c, op = .destroyCtx c ∧ c ≠ ctx
+
+theorem run_append (a b : List Op) : ∀ (s : St),
+    C13.run s (a ++ b) = ((C13.run (C13.run s a).1 b).1, (C13.run s a).2 ++ (C13.run (C13.run s a).1 b).2) := by
+  induction a with
+  | nil => intro s; simp [C13.run]
+  | cons op rest ih => intro s; simp [C13.run, ih, List.append_assoc]
+
+/-- the attached, not yet run continuation waits: source unfinished, referenced, context alive -/
+structure Waiting (s : St) (c : Cont) : Prop where
+  refs : s.refs ≠ 0
+  unfinished : s.finished = false
+  cont : s.cont = some c
+  alive : s.alive c.ctx = true
+
+theorem quiet_step {s : St} {c : Cont} {op : Op} (h : Waiting s c) (hq : Quiet c.ctx op) :
+    Waiting (C13.step s op).1 c ∧ (C13.step s op).2 = [] := by
+  rcases hq with rfl | ⟨c', rfl, hne⟩
+  · have hr := h.refs
+    simp only [C13.step, hr, if_false]
+    exact ⟨⟨by simp, h.unfinished, h.cont, h.alive⟩, trivial⟩
+  · simp only [C13.step]
+    refine ⟨⟨h.refs, h.unfinished, h.cont, ?_⟩, trivial⟩
+    have ha := h.alive
+    simp only [St.alive] at ha ⊢
+    split
+    · exact ha
+    · simp only [List.contains_cons, Bool.not_or, Bool.and_eq_true]
+      refine ⟨?_, ha⟩
+      simp only [Bool.not_eq_true', beq_eq_false_iff_ne, ne_eq]
+      exact fun h' => hne h'.symm
+
+theorem quiet_run (quiet : List Op) : ∀ {s : St} {c : Cont}, Waiting s c → (∀ op ∈ quiet, Quiet c.ctx op) →
+    Waiting (C13.run s quiet).1 c ∧ (C13.run s quiet).2 = [] := by
+  induction quiet with
+  | nil => intro s c h _; exact ⟨h, rfl⟩
+  | cons op rest ih =>
+    intro s c h hq
+    simp only [C13.run]
+    obtain ⟨h1, e1⟩ := quiet_step h (hq op (List.mem_cons_self))
+    obtain ⟨h2, e2⟩ := ih h1 (fun o ho => hq o (List.mem_cons_of_mem _ ho))
+    exact ⟨h2, by rw [e1, e2]; rfl⟩
+
+/-- the chain's continuation runs when the source is finished after any quiet interlude -/
+theorem runs_at_finish {s : St} {ctx : Nat} (quiet post : List Op) (v : Nat)
+    (hr : s.refs ≠ 0) (hf : s.finished = false) (ha : s.alive ctx = true)
+    (hq : ∀ op ∈ quiet, Quiet ctx op) :
+    s.nextId ∈ ranIds (C13.run s (.thenOp ctx [] :: (quiet ++ .finish v :: post))).2 := by
+  have heff : s.effCtx ctx = ctx := by simp [St.effCtx, ha]
+  have hstep : C13.step s (.thenOp ctx []) =
+      ({ s with nextId := s.nextId + 1, cont := some { id := s.nextId, ctx := ctx, body := [] } }, []) := by
+    simp [C13.step, hr, hf, heff]
+  have hw : Waiting (C13.step s (.thenOp ctx [])).1 { id := s.nextId, ctx := ctx, body := [] } := by
+    rw [hstep]
+    exact ⟨hr, hf, rfl, ha⟩
+  obtain ⟨hw2, e2⟩ := quiet_run quiet hw hq
+  have hfin := Qx.C13.finish_delivers_to_attached (C13.run (C13.step s (.thenOp ctx [])).1 quiet).1
+    { id := s.nextId, ctx := ctx, body := [] } v hw2.refs hw2.unfinished hw2.cont hw2.alive
+  simp only [C13.run, run_append, hstep, List.nil_append]
+  rw [hstep] at e2 hfin
+  rw [e2, List.nil_append, ranIds_append, List.mem_append]
+  left
+  have hmem := List.mem_of_mem_head? hfin.1
+  simp only [ranIds, List.mem_filterMap]
+  exact ⟨_, hmem, rfl⟩
+
+end Qx.C07Chain
